@@ -26,6 +26,7 @@ type Obligation struct {
 	Replay  string // replay template of the contract ("" if none)
 	Reveal  []string // opaque spec functions revealed for this obligation
 	PkgPath string // package of the function
+	FullCover bool // cover checked against the full (quantified) prelude
 	Goal    string
 	ModelOf []string // constants whose model values are interesting (parameters)
 }
